@@ -631,7 +631,7 @@ def oracle_merge(case, obs):
     if 'crash' in obs:
         return 'harness: %s %s' % (obs.get('crash'), obs.get('msg'))
     if obs.get('untouched') is False:
-        return 'from_sequence modified an input image / extension'
+        return 'C13: from_sequence modified an input image / extension'
     ws, dim = case['ws'], case['dim']
     n = len(ws)
     sh = ws[0]['img']['shape']
@@ -642,28 +642,28 @@ def oracle_merge(case, obs):
         if dim is None:
             return None
     elif not (0 <= dim < 5) or (dim < len(sh) and sh[dim] != 1):
-        return None if obs.get('err') == 'EValue' else 'bad dim argument %r: expected ValueError, got %r' % (dim, obs.get('exc') or 'a result')
+        return None if obs.get('err') == 'EValue' else 'C03: bad dim argument %r: expected ValueError, got %r' % (dim, obs.get('exc') or 'a result')
     verdict = classify_merge(ws, dim)
     if verdict is None:
         return None
     if verdict == 'refuse':
         return None if obs.get('err') == 'EValue' else \
-            'orientation differs / positions not increasing along the merge axis: expected ValueError, got %r' % (obs.get('exc') or 'a result')
+            'C03: orientation differs / positions not increasing along the merge axis: expected ValueError, got %r' % (obs.get('exc') or 'a result')
     if 'err' in obs:
         if not all(consistent(W, X) for W, X in zip(ws, obs['in_exts'])):
             return None                               # an extension that contradicts its image may legitimately fail to merge
-        return 'mergeable sequence: from_sequence(dim=%r) raised %s: %s' % (case['dim'], obs.get('exc'), obs.get('msg'))
+        return 'C03: mergeable sequence: from_sequence(dim=%r) raised %s: %s' % (case['dim'], obs.get('exc'), obs.get('msg'))
     R = obs['res']
     rsh = merged_shape(sh, dim, n)
     if R['shape'] != rsh:
-        return 'result shape %r, expected %r' % (R['shape'], rsh)
+        return 'C03: result shape %r, expected %r' % (R['shape'], rsh)
     for idx in indices(rsh):
         src = list(idx)
         i = src[dim]
         src[dim] = 0
         src = src[:len(sh)]
         if R['data'][offset(rsh, idx)] != ws[i]['img']['data'][offset(sh, src)]:
-            return 'voxel %r of the result is not voxel %r of input %d' % (idx, tuple(src), i)
+            return 'C03: voxel %r of the result is not voxel %r of input %d' % (idx, tuple(src), i)
     A0 = ws[0]['img']['aff']
     exp = fmat(A0)
     if dim < 3:
@@ -671,13 +671,13 @@ def oracle_merge(case, obs):
         for r in range(3):
             exp[r][dim] = t1[r] - t0[r]
     if fmat(R['aff']) != exp:
-        return 'result affine %r, expected %r' % (R['aff'], [[float(x) for x in r] for r in exp])
+        return 'C03: result affine %r, expected %r' % (R['aff'], [[float(x) for x in r] for r in exp])
     if R['best'] != R['aff']:
-        return 'result header best affine differs from the image affine'
+        return 'C03: result header best affine differs from the image affine'
     sls = [W['img']['slice'] for W in ws]
     esl = sls[0] if all(s == sls[0] for s in sls) else None
     if R['slice'] != esl:
-        return 'result header slice dim %r, expected %r' % (R['slice'], esl)
+        return 'C03: result header slice dim %r, expected %r' % (R['slice'], esl)
     E = R['ext']
     if E['shape'] != R['shape'] and obs['in_exts'][0]['shape'] == sh:
         return 'C07: extension shape %r differs from image shape %r' % (E['shape'], R['shape'])
@@ -715,7 +715,7 @@ def oracle_split(case, obs):
     if 'crash' in obs:
         return 'harness: %s %s' % (obs.get('crash'), obs.get('msg'))
     if obs.get('untouched') is False:
-        return 'split modified its input image / extension'
+        return 'C13: split modified its input image / extension'
     I, dim = case['w']['img'], case['dim']
     sh = I['shape']
     E0 = obs['in_exts'][0]
@@ -723,40 +723,40 @@ def oracle_split(case, obs):
         dim = len(sh) - 1
         if dim == 2:
             if I['slice'] is None:
-                return None if obs.get('err') == 'EValue' else 'slice dim unknown: expected ValueError'
+                return None if obs.get('err') == 'EValue' else 'C04: slice dim unknown: expected ValueError'
             dim = I['slice']
     if dim >= len(sh):
-        return None if 'err' in obs else 'split along a missing axis returned pieces'
+        return None if 'err' in obs else 'C04: split along a missing axis returned pieces'
     if not consistent(case['w'], E0):
         return None                                   # the image half below is checked through the correspondence only
     if 'err' in obs:
-        return 'split(dim=%r) raised %s: %s' % (case['dim'], obs.get('exc'), obs.get('msg'))
+        return 'C04: split(dim=%r) raised %s: %s' % (case['dim'], obs.get('exc'), obs.get('msg'))
     P = obs['pieces']
     if len(P) != sh[dim]:
-        return '%d pieces for an axis of length %d' % (len(P), sh[dim])
+        return 'C04: %d pieces for an axis of length %d' % (len(P), sh[dim])
     psh = piece_shape(sh, dim)
     A = fmat(I['aff'])
     for i, p in enumerate(P):
         if p['shape'] != psh:
-            return 'piece %d has shape %r, expected %r' % (i, p['shape'], psh)
+            return 'C04: piece %d has shape %r, expected %r' % (i, p['shape'], psh)
         for idx in indices(psh):
             src = list(idx) + [0] * (len(sh) - len(idx))
             src[dim] = i
             if p['data'][offset(psh, idx)] != I['data'][offset(sh, src)]:
-                return 'voxel %r of piece %d is not voxel %r of the parent' % (idx, i, tuple(src))
+                return 'C04: voxel %r of piece %d is not voxel %r of the parent' % (idx, i, tuple(src))
         exp = [list(r) for r in A]
         if dim < 3:
             for r in range(3):
                 exp[r][3] = A[r][3] + i * A[r][dim]
         if fmat(p['aff']) != exp:
-            return 'piece %d affine %r, expected %r' % (i, p['aff'], [[float(x) for x in r] for r in exp])
+            return 'C04: piece %d affine %r, expected %r' % (i, p['aff'], [[float(x) for x in r] for r in exp])
         if p['best'] != p['aff']:
-            return 'piece %d: header best affine differs from the image affine' % i
+            return 'C04: piece %d: header best affine differs from the image affine' % i
         if p['slice'] != I['slice']:
-            return 'piece %d header slice dim %r, parent %r' % (i, p['slice'], I['slice'])
+            return 'C04: piece %d header slice dim %r, parent %r' % (i, p['slice'], I['slice'])
         X = p['ext']
         if X['shape'] != p['shape']:
-            return 'C07/F5: piece %d extension shape %r differs from its image shape %r' % (i, X['shape'], p['shape'])
+            return 'C04,C07: (F5) piece %d extension shape %r differs from its image shape %r' % (i, X['shape'], p['shape'])
         if X['sdim'] != p['slice']:
             return 'C07: piece %d extension slice_dim %r, header %r' % (i, X['sdim'], p['slice'])
         if [r[:3] for r in fmat(X['aff'])[:3]] != [r[:3] for r in fmat(E0['aff'])[:3]]:
@@ -777,7 +777,7 @@ def oracle_rt(case, obs):
     if 'crash' in obs:
         return 'harness: %s %s' % (obs.get('crash'), obs.get('msg'))
     if obs.get('untouched') is False:
-        return 'the round trip modified an input image / extension'
+        return 'C13: the round trip modified an input image / extension'
     dim = case['dim']
     if case['mode'] == 'sm':
         I = case['w']['img']
@@ -785,19 +785,19 @@ def oracle_rt(case, obs):
         if sh[dim] < 2 or not consistent(case['w'], obs['in_exts'][0]):
             return None
         if 'err' in obs:
-            return 'split then merge along %d raised %s: %s' % (dim, obs.get('exc'), obs.get('msg'))
+            return 'C05: split then merge along %d raised %s: %s' % (dim, obs.get('exc'), obs.get('msg'))
         R = obs['res']
         trimmed = list(sh)
         while len(trimmed) > 3 and trimmed[-1] == 1 and len(trimmed) - 1 > dim:
             trimmed = trimmed[:-1]
         if R['shape'] != trimmed:
-            return 'split then merge: shape %r, expected %r' % (R['shape'], trimmed)
+            return 'C05: split then merge: shape %r, expected %r' % (R['shape'], trimmed)
         if R['data'] != I['data']:
-            return 'split then merge: voxel data differ'
+            return 'C05: split then merge: voxel data differ'
         if fmat(R['aff']) != fmat(I['aff']):
-            return 'split then merge: affine %r, original %r' % (R['aff'], I['aff'])
+            return 'C05: split then merge: affine %r, original %r' % (R['aff'], I['aff'])
         if R['slice'] != I['slice']:
-            return 'split then merge: header slice dim %r, original %r' % (R['slice'], I['slice'])
+            return 'C05: split then merge: header slice dim %r, original %r' % (R['slice'], I['slice'])
         return None
     ws = case['ws']
     sh = ws[0]['img']['shape']
@@ -806,15 +806,15 @@ def oracle_rt(case, obs):
     if not all(consistent(W, X) for W, X in zip(ws, obs['in_exts'])) or len(set(W['img']['slice'] for W in ws)) > 1:
         return None
     if 'err' in obs:
-        return 'merge then split along %d raised %s: %s' % (dim, obs.get('exc'), obs.get('msg'))
+        return 'C05: merge then split along %d raised %s: %s' % (dim, obs.get('exc'), obs.get('msg'))
     P = obs['pieces']
     if len(P) != len(ws):
-        return 'merge then split: %d pieces from %d inputs' % (len(P), len(ws))
+        return 'C05: merge then split: %d pieces from %d inputs' % (len(P), len(ws))
     for i, (p, W) in enumerate(zip(P, ws)):
         if p['data'] != W['img']['data']:
-            return 'merge then split: piece %d does not carry input %d\'s voxels' % (i, i)
+            return 'C05: merge then split: piece %d does not carry input %d\'s voxels' % (i, i)
         if p['shape'] != piece_shape(merged_shape(sh, dim, len(ws)), dim):
-            return 'merge then split: piece %d shape %r' % (i, p['shape'])
+            return 'C05: merge then split: piece %d shape %r' % (i, p['shape'])
     return None
 
 
@@ -832,6 +832,23 @@ def sig_rt(case, obs, msg):
 
 
 # ------------------------------------------------------------------------------------------ parts
+
+def for_property(part, pid):
+    """The same part with its oracle restricted to the statements of ONE property.  Every oracle message starts with the ids
+    of the properties it belongs to ('C03: ...', 'C04,C07: ...', 'C13: ...'); 'harness: ...' always passes.  Use
+        PARTS = [imglib.for_property(imglib.ImgMergePart, 'C03'), ...]
+    so that e.g. the open C07 finding N8 does not show up as a C03 failure."""
+    class P(part):
+        @staticmethod
+        def oracle(case, obs):
+            m = part.oracle(case, obs)
+            if not m or m.startswith('harness:'):
+                return m
+            tags = m.split(':', 1)[0].split(',')
+            return m if pid in tags else None
+    P.__name__ = '%s_%s' % (part.__name__, pid)
+    return P
+
 
 CORR_REQ = 'From DV Require Import Common.Jv Ext.Types Ext.Model Ext.Corr Orient.Model Wrapper.Model Wrapper.Corr.'
 
